@@ -75,6 +75,7 @@ type Plan struct {
 	Steps      []string     `json:"steps,omitempty"` // replay: labels to take (lenient)
 	MaxSteps   int          `json:"max_steps"`
 	ConvFail   bool         `json:"conv_fail,omitempty"`    // converter transient failures
+	ConvDie    bool         `json:"conv_die,omitempty"`     // converter exits in the middle of its input after printing one line (once per stream version)
 	ConvGarble bool         `json:"conv_garble,omitempty"`  // converter breaks the protocol once per stream version (one malformed line, then a normal answer)
 	MergeFail  bool         `json:"merge_fail,omitempty"`   // disk error: creating the merged index file fails (every merge)
 	MergeFailN int          `json:"merge_fail_n,omitempty"` // ... or only the first n merges (later ones succeed)
@@ -220,6 +221,11 @@ func Gen(prop, tier string, seed, run uint64) Plan {
 	cfg.BigMsgs = false
 	p.Net = *netsim.Gen(r, cfg)
 	genBase = p.Net.BaseUnix
+	if (prop == "C05" || prop == "C08" || prop == "C10" || prop == "C07" || prop == "C13") && r.IntN(6) == 0 {
+		// capture files that overlap in time (the reference is an import of the same files)
+		p.Net.Overlap = 2 + r.IntN(10)
+		p.Net.Jumble = r.IntN(2) == 0
+	}
 	nf := len(netsim.Build(&p.Net).Files)
 	nStreams := len(p.Net.Convs)
 	p.Knobs = Knobs{NumCPU: 1, SnapEvery: 100_000, CleanupMinFree: 16 << 20}
@@ -244,6 +250,7 @@ func Gen(prop, tier string, seed, run uint64) Plan {
 	if prop == "C16" || prop == "C09" || prop == "C20" {
 		p.ConvFail = useConv && r.IntN(3) == 0
 		p.ConvGarble = useConv && !p.ConvFail && r.IntN(4) == 0
+		p.ConvDie = useConv && !p.ConvFail && !p.ConvGarble && r.IntN(4) == 0
 	}
 	if prop == "C09" || prop == "C13" {
 		p.MergeFail = r.IntN(5) == 0
@@ -436,6 +443,9 @@ func Gen(prop, tier string, seed, run uint64) Plan {
 			if invalid && r.IntN(5) == 0 {
 				cs = append(cs, "nosuchconv")
 			}
+			if invalid && len(cs) > 0 && r.IntN(5) == 0 {
+				cs = append(cs, cs[r.IntN(len(cs))]) // the same converter named twice
+			}
 			mutOps = append(mutOps, Op{C: CMut, K: "SetConv", Name: name, Convs: cs})
 		default:
 			if len(p.Converters) > 0 && r.IntN(2) == 0 {
@@ -464,6 +474,21 @@ func Gen(prop, tier string, seed, run uint64) Plan {
 			mutOps = append(mutOps[:at], append(seq, mutOps[at:]...)...)
 			break
 		}
+	}
+	if prop == "C11" && r.IntN(5) == 0 {
+		// a diamond below a tag, then repeated attempts to close a cycle through it
+		dia := []Op{
+			{C: CMut, K: "AddTag", Name: "service/s", Color: "#0a0a0a", Def: "sport:80,443"},
+			{C: CMut, K: "AddTag", Name: "tag/a", Color: "#0a0a0a", Def: "service:s"},
+			{C: CMut, K: "AddTag", Name: "tag/b", Color: "#0a0a0a", Def: "service:s cbytes:1:"},
+			{C: CMut, K: "AddTag", Name: "service/t", Color: "#0a0a0a", Def: "sport:8080"},
+			{C: CMut, K: "AddTag", Name: "tag/c", Color: "#0a0a0a", Def: "tag:a tag:b service:t"},
+		}
+		for i := 0; i < 5; i++ {
+			dia = append(dia, Op{C: CMut, K: "UpdQuery", Name: "service/t", Def: []string{"tag:c", "tag:c sport:8080", "-tag:c"}[r.IntN(3)]})
+		}
+		at := r.IntN(1 + len(mutOps)/4)
+		mutOps = append(mutOps[:at], append(dia, mutOps[at:]...)...)
 	}
 	if (prop == "C11" || prop == "C12") && r.IntN(4) == 0 {
 		// a long reference chain (every tag references the previous one)
@@ -638,7 +663,7 @@ func Gen(prop, tier string, seed, run uint64) Plan {
 		st := Op{C: CMut, K: "Storm", Conv: p.Converters[0], V: 10 + r.IntN(6)}
 		mutOps = append(mutOps[:at], append([]Op{st}, mutOps[at:]...)...)
 	}
-	if prop == "C20" && (run%7 == 3 || run%7 == 5) && nf > 0 {
+	if (prop == "C20" || prop == "C09") && (run%7 == 3 || run%7 == 5) && nf > 0 {
 		// PCAP-over-IP ingestion without a socket: packets are handed to the real
 		// packet handler; its capture writer and the import it queues run outside
 		// the controller's schedule, so these runs are not replayable (they are not
@@ -673,7 +698,7 @@ func Gen(prop, tier string, seed, run uint64) Plan {
 		// merge-heavy plan: the disk fills up while one of the merges writes its output
 		p.WriteFail = append(p.WriteFail, WriteFault{Kind: "merge", Seq: r.IntN(3), Limit: int64(200 + r.IntN(12000))})
 	}
-	if (prop == "C09" || prop == "C13" || prop == "C12" || prop == "C10" || prop == "C06") && r.IntN(5) == 0 {
+	if (prop == "C09" || prop == "C13" || prop == "C12" || prop == "C10" || prop == "C06" || prop == "C05" || prop == "C07" || prop == "C08" || prop == "C16") && r.IntN(5) == 0 {
 		// disk full while an import or merge writes its files
 		limits := []int64{1, 64, 300, 1000, 2500, 4096, 6000, 9000, 15000}
 		for i, m := 0, 1+r.IntN(2); i < m; i++ {
